@@ -16,12 +16,14 @@ use svh::*;
 
 #[path = "wire/common.rs"]
 mod common;
+#[path = "wire2/fmt_v6hbh.rs"]
+mod fmt_v6hbh;
 #[path = "wire2/fmt_v6opt.rs"]
 mod fmt_v6opt;
 
 use common::Format;
 
-const FORMATS: &[&Format] = &[&fmt_v6opt::FORMAT];
+const FORMATS: &[&Format] = &[&fmt_v6opt::FORMAT, &fmt_v6hbh::FORMAT];
 
 fn format(name: &str) -> &'static Format {
     FORMATS.iter().find(|f| f.name == name).unwrap_or_else(|| panic!("unknown format {}", name))
